@@ -239,12 +239,11 @@ impl<'p, 'a> Evaluator<'a, 'p> {
                                 }
                             }
                             PendingThunk::Call { func, args } => {
+                                // A deferred call (an element of `std.map`, ...) is a
+                                // call like any other: it counts a stack frame.
                                 let func = func.view();
-                                let (_, func_env) = self.get_func_info(&func);
                                 let args: Vec<_> = args.iter().map(Gc::view).collect();
-                                let args =
-                                    self.check_call_thunk_args(&func.params, &args, &[], func_env)?;
-                                self.execute_call(&func, args);
+                                self.check_thunk_args_and_execute_call(&func, &args, &[], None)?;
                             }
                         }
                     }
